@@ -53,12 +53,12 @@ class Family:
         self.thorough = tier == 'thorough'
         self.mc_invs, self.trace_invs = list(mc_invs), list(trace_invs)
         self.programs, self.modes = programs, modes
-        self.matcher = matcher or (lambda inv, ev: None)
+        self.matcher = matcher or (lambda inv, ev, ctx: None)
         self.out = Outcome(pid, tier, level)
         self.w = core.spec_copy()
         self.d = core.scratch('verif-%s-' % pid.lower())
         self.pairs = set()
-        open(os.path.join(self.w, 'vt.cfg'), 'w').write(trace_cfg(self.trace_invs + ['Drift_Code', 'Drift_Menu', 'Drift_State', 'Continuity']))
+        open(os.path.join(self.w, 'vt.cfg'), 'w').write(trace_cfg(self.trace_invs + ['Drift_Code', 'Drift_Menu', 'Drift_State', 'Drift_Req', 'Continuity']))
 
     # ---- A
     def model_check(self, maxreq):
@@ -125,10 +125,50 @@ class Family:
                         history=dict(inputs=[dec(x[1]) for x in rs], picks=[x[2] for x in rs], mode=rs[-1][3] if rs else mode, tail=False))
         self.validate(tr, 'seeded random program (mode %s)' % mode, case_of)
 
+    def pairs_stage(self, nprog, nsess, maxreq, stores='mem,fs,pg'):
+        tr = os.path.join(self.d, 'pairs.ndjson')
+        p = core.run_harness(['vise-pairs', tr, str(nprog), str(nsess), str(maxreq), stores])
+        summ = harness_summary(p)
+        if summ.get('hang'):
+            pass
+        self.out.cov['traces_validated_against_impl'] += summ.get('pairs', 0) * 2
+        progs = {}
+        for line in open(tr):
+            if line.startswith('{"ev":"prog"'):
+                pr = json.loads(line)['prog']
+                progs[pr['name']] = pr
+
+        def case_of(ev):
+            sid = ev['sid']
+            base = sid.split('.s')[0]
+            if ev.get('ev') == 'pair':
+                return dict(program=progs[base], pair=dict(kind=ev['kind'], inputs=[dec(x) for x in ev['inputs']], extra=[dec(x) for x in ev['extra']],
+                                                           store=ev['store']), history=dict(inputs=[dec(x) for x in ev['inputs']], picks=[], mode='L'))
+            return dict(program=progs[base], history=dict(inputs=[], picks=[], mode='L'), note='event inside a paired run; see sid')
+        self.validate(tr, 'paired runs (long-lived vs persisted, with vs without refused inputs)', case_of)
+
+    def known_cases(self):
+        """Replay the canonical reproducer of every known finding of this property (each must still be matched)."""
+        for k in core.known_for(self.pid):
+            cp = os.path.join(core.VERIF, k['canonical_case'])
+            case = json.load(open(cp))
+            pp = os.path.join(self.d, 'kc_prog_%s.json' % k['id'])
+            json.dump(case['program'], open(pp, 'w'))
+            hp = os.path.join(self.d, 'kc_hist_%s.ndjson' % k['id'])
+            open(hp, 'w').write(json.dumps(case['history']) + '\n')
+            tr = os.path.join(self.d, 'kc_trace_%s.ndjson' % k['id'])
+            core.run_harness(['vise-run', pp, hp, tr, case['history'].get('mode', 'L')])
+            before = set(self.out.known_hit)
+            self.validate(tr, 'canonical case of ' + k['id'], lambda ev: dict(program=case['program'], history=case['history']))
+            if k['id'] not in self.out.known_hit:
+                self.out.cov.setdefault('known_findings_not_reproduced', []).append(k['id'])
+                log('note: known finding %s no longer reproduces on its canonical case (fixed?)' % k['id'])
+
     def validate(self, tr, source, case_of):
         viol, st = core.validate_trace('ViseTrace', 'vt.cfg', tr, workdir=self.w, chunk=2500, par=core.NCPU)
         self.out.cov['evaluations'] += st['events']
         n = 0
+        ctx = dict(croak=set(), req={})
         for line in open(tr):
             if '"ev":"instr"' in line[:40]:
                 ev = json.loads(line)
@@ -136,9 +176,17 @@ class Family:
                     i = ev['pre']['code'][0]
                     moved = (ev['pre']['path'], ev['pre']['idx']) != (ev['post']['path'], ev['post']['idx'])
                     self.pairs.add((i['op'], i['ac'], moved, len(ev['ext']), ev['last']))
+                    if i['op'] == 'CROAK' and len(ev['post']['c']['frames']) < len(ev['pre']['c']['frames']):
+                        ctx['croak'].add((ev['sid'], ev['req']))
                 n += 1
                 if n == 40:
                     self.out.sample(dict(kind='recorded run-loop iteration', event=slim(ev)))
+            elif '"ev":"req"' in line[:40]:
+                ev = json.loads(line)
+                ctx['req'][(ev['sid'], ev['req'])] = dict(panic=ev['panic'], fpanic=ev['fpanic'], err=ev['err'])
+                self.pairs.add(('req', ev['mode'], ev['incls'], ev['cont'], ev['err'], ev['outlen'] > 0))
+                if n % 50 == 7:
+                    self.out.sample(dict(kind='recorded request', event=slim(ev)), limit=8)
         for inv, idx, ev in viol:
             if inv.startswith('Drift_'):
                 self.out.cov['model_drift_events'] = self.out.cov.get('model_drift_events', 0) + 1
@@ -146,7 +194,7 @@ class Family:
                 continue
             if inv == 'Continuity':
                 raise Infra('continuity failure in %s at event %d: the hook missed a step' % (source, idx))
-            k = self.matcher(inv, ev)
+            k = self.matcher(inv, ev, ctx)
             if k:
                 self.out.known(k['id'], k['what'])
                 continue
@@ -166,6 +214,27 @@ def dec(s):
     return s
 
 
+def known_matcher(pid):
+    """Known-finding matchers of the VM/engine family (see known_findings.json)."""
+    ks = {k['matcher']: k for k in core.known_for(pid)}
+
+    def m(inv, ev, ctx):
+        key = (ev.get('sid'), ev.get('req'))
+        if inv in ('C08_Levels', 'C08_ReqLevels') and 'croak-drops-scopes' in ks:
+            if ev.get('ev') == 'instr' and ev['pre']['code'] and ev['pre']['code'][0]['op'] == 'CROAK':
+                return ks['croak-drops-scopes']
+            if ev.get('ev') == 'req' and key in ctx['croak']:
+                return ks['croak-drops-scopes']
+        if inv in ('C08_NoPanic', 'C08_ReqNoPanic') and 'maxlevel-panic' in ks:
+            if ctx['req'].get(key, {}).get('panic') == 'maxlevel':
+                return ks['maxlevel-panic']
+        if inv == 'C20_Blocked' and 'blocked-dirty-leftover' in ks and ev.get('ev') == 'req':
+            if 4 in ev['pre']['flags'] and 6 in ev['pre']['flags']:
+                return ks['blocked-dirty-leftover']
+        return None
+    return m
+
+
 def slim(ev):
     """digest of an event for messages / evidence"""
     if ev.get('ev') == 'instr':
@@ -176,7 +245,13 @@ def slim(ev):
         return dict(ev='instr', sid=ev['sid'], req=ev['req'], seq=ev['seq'], last=ev['last'], panic=ev['panic'], pre=b(ev['pre']), post=b(ev['post']),
                     ext=[[e['kind'], e['sym'], e['ok'], e['len']] for e in ev['ext']])
     if ev.get('ev') == 'req':
-        return {k: v for k, v in ev.items() if k not in ('pre', 'post', 'post2', 'saved', 'ext', 'fext')}
+        def b(s):
+            return dict(path=s['path'], idx=s['idx'], flags=s['flags'], ncode=len(s['code']), frames=[[x['k'] + ':' + str(x['len']) for x in fr] for fr in s['c']['frames']], lang=s['lang'])
+        r = {k: v for k, v in ev.items() if k not in ('pre', 'post', 'post2', 'saved', 'ext', 'fext')}
+        r.update(pre=b(ev['pre']), post=b(ev['post']), post2=b(ev['post2']))
+        return r
+    if ev.get('ev') == 'pair':
+        return dict(ev='pair', kind=ev['kind'], sid=ev['sid'], store=ev['store'], inputs=ev['inputs'], extra=ev['extra'][:12], a=ev['a'][:8], b=ev['b'][:8])
     return ev
 
 
